@@ -55,8 +55,13 @@ def size_vectors(n, tier):
 class ComputeRun:
     """One symbolic execution of the real _compute on a rank-sorted game."""
 
-    def __init__(self, model, sizes, ranks, gamma_mode="default", tm_stub=True):
+    def __init__(self, model, sizes, ranks, gamma_mode="default", tm_stub=True, order=None, identical=False):
+        """sizes: team sizes by *original* team index (symbols mu_i_j / sg_i_j);
+        order: the presentation handed to _compute lists original teams in this
+        order (default 0..n-1); ranks: sorted dense ranks of the presentation;
+        identical: every team carries team 0's symbols."""
         self.model, self.sizes, self.ranks, self.gamma_mode = model, tuple(sizes), ranks, gamma_mode
+        self.order = list(order) if order is not None else list(range(len(sizes)))
         S = self.S = extract.Scratch(model)
         self.tm = game.stub_tm_real(S)
         game.stub_phi_real(S)
@@ -72,12 +77,22 @@ class ComputeRun:
                 box["spec_g"] = spec_g
             m, params = game.mk_model(ctx, S, **kw)
             teams = game.mk_teams(ctx, S, sizes)
-            if gamma_mode == "custom":
-                code_g.teams = teams
+            if identical:
+                for t in teams[1:]:
+                    for j, p in enumerate(t):
+                        p.mu, p.sigma = teams[0][j].mu, teams[0][j].sigma
             ctx.assume(term(params["kappa"]) <= 1)
             prior = [[(p.mu, p.sigma) for p in t] for t in teams]
             objs = [list(t) for t in teams]
-            out = call(m._compute, teams, list(ranks) if ranks is not None else None)
+            present = [teams[k] for k in self.order]
+            if gamma_mode == "custom":
+                code_g.teams = present
+            out = call(m._compute, present, list(ranks) if ranks is not None else None)
+            if out[0] == "return" and self.order != list(range(len(sizes))):
+                back = [None] * len(sizes)
+                for pos, k in enumerate(self.order):
+                    back[k] = out[1][pos]
+                out = ("return", back)
             box.update(m=m, params=params, prior=prior, objs=objs, out=out)
         recs = explore(self.ctx, run)
         if len(recs) != 1:
@@ -106,7 +121,12 @@ class ComputeRun:
         set_cur(self.ctx)
         try:
             X = game.SymX(self.tm)
-            return WS.posterior(self.model, self.prior, self.ranks, self.params["beta"], self.params["kappa"], X,
+            ranks = self.ranks
+            if ranks is not None and self.order != list(range(len(self.sizes))):
+                ranks = [None] * len(self.sizes)
+                for pos, k in enumerate(self.order):
+                    ranks[k] = self.ranks[pos]
+            return WS.posterior(self.model, self.prior, ranks, self.params["beta"], self.params["kappa"], X,
                                 gamma=self.gamma_spec, pair_scale=pair_scale, details=details)
         finally:
             self.facts = list(self.ctx.facts.values())
@@ -195,3 +215,49 @@ def generic_lemma(name, build, fn="lemma", timeout_ms=20000):
 def sqrt_inst(r, y):
     """A-sqrt instance for r = sqrt(y)"""
     return [z3.Implies(y >= 0, z3.And(r >= 0, r * r == y))]
+
+
+
+class CodeWorld:
+    """Several symbolic executions of the real _compute on the *same* symbolic
+    game under different outcomes; obligations relate their result terms."""
+
+    def __init__(self, model, sizes, identical=False):
+        self.model, self.sizes, self.identical = model, tuple(sizes), identical
+        self.runs = []
+
+    def outcome(self, ranks_by_team):
+        """ranks_by_team[i] = rank value of original team i (ties allowed).
+        Returns the run; run.post()[i][j] is indexed by original team."""
+        n = len(self.sizes)
+        order = sorted(range(n), key=lambda i: (ranks_by_team[i], i))      # what rate's stable sort does
+        vals = sorted(set(ranks_by_team))
+        dense = [vals.index(ranks_by_team[k]) for k in order]
+        run = ComputeRun(self.model, self.sizes, dense, "default", order=order, identical=self.identical)
+        if not run.ok():
+            raise EngineError(f"_compute raised {run.out[1]!r}")
+        self.runs.append(run)
+        return run
+
+    def dmu(self, run, i, j=0):
+        from ..symrt import active
+        with active(run.ctx):
+            return term(run.post()[i][j][0] - run.prior[i][j][0])
+
+    def prover(self, timeout_ms=20000):
+        hyps, seen = [], set()
+        facts = []
+        for r in self.runs:
+            for h in r.hyps:
+                if h.get_id() not in seen:
+                    seen.add(h.get_id())
+                    hyps.append(h)
+            facts += list(r.ctx.facts.values())
+        self._keep = hyps
+        return field.Prover(hyps, facts, timeout_ms=timeout_ms)
+
+    def apps(self, name):
+        out = []
+        for r in self.runs:
+            out += list(r.ctx.apps.get(name, {}).values())
+        return out
